@@ -2,7 +2,7 @@
    trash only old replicas on writable mounts, pull targets, no trash when `underreplicated` is
    set, lost reported when some mount is writable. *)
 From Coq Require Import List Arith Bool Lia Permutation.
-From AV Require Import model.C05_model proofs.C05_proofs.
+From AV Require Import model.C05_model model.C05_old_model proofs.C05_proofs.
 Import ListNotations.
 
 Lemma in_flat_map_emit minMtime norepl from sl ch :
@@ -11,10 +11,10 @@ Proof. apply in_flat_map. Qed.
 
 (* ---- trash ---- *)
 Theorem block_trash_ok dflt rank devrank minMtime mounts allmounts replicas classes desired m t :
-  In (Trash m t) (fst (balance_block dflt rank devrank minMtime mounts allmounts replicas classes desired)) ->
+  In (Trash m t) (fst (balance_block_old dflt rank devrank minMtime mounts allmounts replicas classes desired)) ->
   t < minMtime /\ In (m, t) replicas /\ exists x, In x mounts /\ mid x = m /\ mro x = false.
 Proof.
-  unfold balance_block; simpl. intros H. apply in_flat_map in H. destruct H as (s & Hs & He).
+  unfold balance_block_old; simpl. intros H. apply in_flat_map in H. destruct H as (s & Hs & He).
   apply emit_trash in He. destruct He as (-> & Hr & Hw & Hlt).
   pose proof (final_slots_ok dflt rank devrank mounts replicas classes desired) as F.
   rewrite Forall_forall in F. destruct (F s Hs) as (A & B & C).
@@ -27,13 +27,13 @@ Qed.
 
 (* ---- pull ---- *)
 Theorem block_pull_ok dflt rank devrank minMtime mounts allmounts replicas classes desired m f :
-  In (Pull m f) (fst (balance_block dflt rank devrank minMtime mounts allmounts replicas classes desired)) ->
+  In (Pull m f) (fst (balance_block_old dflt rank devrank minMtime mounts allmounts replicas classes desired)) ->
   (exists x, In x mounts /\ mid x = m /\ mro x = false) /\
   (forall t, ~ In (m, t) replicas) /\
   exists m0 t0 rest, replicas = (m0, t0) :: rest /\
      f = match find (fun x => mid x =? m0) allmounts with Some x => msrv x | None => 0 end.
 Proof.
-  unfold balance_block; simpl. intros H. apply in_flat_map in H. destruct H as (s & Hs & He).
+  unfold balance_block_old; simpl. intros H. apply in_flat_map in H. destruct H as (s & Hs & He).
   apply emit_pull in He. destruct He as (-> & Hf & Hr & Hw & Hn & Hro).
   pose proof (final_slots_ok dflt rank devrank mounts replicas classes desired) as F.
   rewrite Forall_forall in F. destruct (F s Hs) as (A & B & C).
@@ -44,11 +44,11 @@ Qed.
 
 (* ---- nothing is trashed when balanceBlock's own `underreplicated` flag is set ---- *)
 Theorem block_no_trash_when_flag dflt rank devrank minMtime mounts allmounts replicas classes desired m t :
-  under_flag dflt rank devrank mounts replicas classes desired = true ->
-  ~ In (Trash m t) (fst (balance_block dflt rank devrank minMtime mounts allmounts replicas classes desired)).
+  under_flag_old dflt rank devrank mounts replicas classes desired = true ->
+  ~ In (Trash m t) (fst (balance_block_old dflt rank devrank minMtime mounts allmounts replicas classes desired)).
 Proof.
-  unfold under_flag, balance_block, final_slots; simpl. intros Hu H.
-  destruct (run_classes dflt rank devrank classes desired (map (mkslot replicas) mounts)) as [[sl uns] under].
+  unfold under_flag_old, balance_block_old, final_slots_old; simpl. intros Hu H.
+  destruct (run_classes_old dflt rank devrank classes desired (map (mkslot replicas) mounts)) as [[sl uns] under].
   simpl in Hu. subst under.
   apply in_flat_map in H. destruct H as (s & Hs & He).
   apply emit_trash in He. destruct He as (_ & Hr & Hw & _).
@@ -64,15 +64,15 @@ Definition fresh (a : acc) : Prop :=
 Lemma pass_wants_writable dist d : 0 < d -> forall l a a' dn' l',
   fresh a -> Forall (fun s => srepl s = None) l ->
   Exists (fun s => mro (smnt s) = false) l ->
-  pass dist d a false l = (a', dn', l') -> Exists (fun s => swant s = true) l'.
+  pass_old dist d a false l = (a', dn', l') -> Exists (fun s => swant s = true) l'.
 Proof.
   intros Hd. induction l as [|s r IH]; intros a a' dn' l' Hf Hn Hw H; [inversion Hw|].
   simpl in H. destruct Hf as (F1 & F2 & F3 & F4 & F5).
   rewrite F1 in H. simpl in H. rewrite andb_false_r in H.
   inversion Hn as [|? ? Hs Hn']; subst.
-  destruct (try_slot d a s) as [[a1 s1] d1] eqn:Et.
-  destruct (pass dist d a1 d1 r) as [[a2 d2] r2] eqn:E. injection H as _ _ <-.
-  unfold try_slot in Et. rewrite F2, F3, Hs, F4 in Et. simpl in Et. rewrite andb_false_r in Et. simpl in Et.
+  destruct (try_slot_old d a s) as [[a1 s1] d1] eqn:Et.
+  destruct (pass_old dist d a1 d1 r) as [[a2 d2] r2] eqn:E. injection H as _ _ <-.
+  unfold try_slot_old in Et. rewrite F2, F3, Hs, F4 in Et. simpl in Et. rewrite andb_false_r in Et. simpl in Et.
   assert (L : (0 <? d) = true) by (apply Nat.ltb_lt; exact Hd). rewrite L in Et. unfold has in Et. rewrite Hs in Et. simpl in Et.
   destruct (mro (smnt s)) eqn:Ero; simpl in Et.
   - assert (L2 : (d <=? 0) = false) by (apply Nat.leb_gt; exact Hd). rewrite L2, andb_false_r in Et.
@@ -86,10 +86,10 @@ Qed.
 Theorem block_lost_reported dflt rank devrank minMtime mounts allmounts classes desired c :
   In c classes -> 0 < lookup desired c ->
   (exists x, In x mounts /\ mro x = false) ->
-  snd (balance_block dflt rank devrank minMtime mounts allmounts [] classes desired) = true.
+  snd (balance_block_old dflt rank devrank minMtime mounts allmounts [] classes desired) = true.
 Proof.
   intros Hc Hd (x & Hx & Hro).
-  unfold balance_block; simpl. apply existsb_exists.
+  unfold balance_block_old; simpl. apply existsb_exists.
   (* all slots have no replica, at every stage *)
   set (Pn := fun s : slot => srepl s = None).
   assert (Cn : wclosed Pn) by (intros s H; exact H).
@@ -97,9 +97,9 @@ Proof.
   assert (Cq : wclosed Q) by (intros s H; reflexivity).
   assert (F0 : Forall Pn (map (mkslot []) mounts)).
   { rewrite Forall_forall. intros s Hs. apply in_map_iff in Hs. destruct Hs as (m & <- & _). reflexivity. }
-  assert (Fin : Forall Pn (final_slots dflt rank devrank mounts [] classes desired)) by (apply final_slots_Forall; auto).
-  assert (Ex : Exists Q (final_slots dflt rank devrank mounts [] classes desired)).
-  { unfold final_slots, run_classes.
+  assert (Fin : Forall Pn (final_slots_old dflt rank devrank mounts [] classes desired)) by (apply final_slots_Forall; auto).
+  assert (Ex : Exists Q (final_slots_old dflt rank devrank mounts [] classes desired)).
+  { unfold final_slots_old, run_classes_old.
     apply in_split in Hc. destruct Hc as (pre & post & ->). rewrite fold_left_app. simpl.
     pose proof (run_classes_evolves dflt rank devrank desired pre (map (mkslot []) mounts, [], false)) as Ev1.
     destruct (fold_left _ pre _) as [[sl1 u1] n1].
